@@ -228,6 +228,9 @@ def bijective(t):
     from vf.spec import Ann
     if any((isinstance(n, Ann) and n.cons.get("unique")) or (isinstance(n, ObjectT) and any((f.cons or {}).get("unique") for f in n.fields)) for n in t.walk()):
         return False  # uniqueness is evaluated on the raw items, which completion with defaults may merge
+    from vf.checks.c07 import props_constraint_on_object
+    if props_constraint_on_object(t):
+        return False  # property counts are evaluated on the input keys, which completion with defaults changes
     return not ambiguous_union(t) and not json_ambiguous(t)
 
 
